@@ -77,18 +77,20 @@ def check(tier):
                     (3, 2, "", "", "2.2,3.1", ["-random", "400"]),          # CanAdd / Eval queued behind a drain
                     (8, 40, "", "", "", ["-free", "100"])]
         else:
+            # measured: a forced schedule costs 30-60 ms wall (gate hand-offs), so one
+            # enumeration of 15 000 schedules is 10-15 min on a quiet 16-core host
             plan = [(2, 1, "", "", "", ["-enum"]),
-                    (2, 1, "1.1", "", "", ["-enum", "-max", "60000"]),
-                    (2, 1, "", "2.1", "", ["-enum", "-max", "60000"]),
-                    (2, 1, "", "", "1.1", ["-enum", "-max", "60000"]),
-                    (2, 2, "1.1", "", "", ["-enum", "-max", "60000"]),
-                    (2, 2, "", "", "1.2,2.1", ["-enum", "-max", "60000"]),
-                    (3, 1, "1.1", "3.1", "", ["-random", "20000"]),
-                    (3, 2, "1.1,2.2", "", "", ["-random", "10000"]),
-                    (3, 2, "", "", "2.2,3.1", ["-random", "10000"]),
-                    (4, 2, "1.1", "2.1", "3.2,4.1", ["-random", "5000"]),
-                    (8, 40, "", "", "", ["-free", "2000"]),
-                    (16, 25, "", "", "", ["-free", "1000"])]
+                    (2, 1, "1.1", "", "", ["-enum", "-max", "15000"]),
+                    (2, 1, "", "2.1", "", ["-enum", "-max", "15000"]),
+                    (2, 1, "", "", "1.1", ["-enum", "-max", "15000"]),
+                    (2, 2, "1.1", "", "", ["-enum", "-max", "15000"]),
+                    (2, 2, "", "", "1.2,2.1", ["-enum", "-max", "15000"]),
+                    (3, 1, "1.1", "3.1", "", ["-random", "10000"]),
+                    (3, 2, "1.1,2.2", "", "", ["-random", "5000"]),
+                    (3, 2, "", "", "2.2,3.1", ["-random", "5000"]),
+                    (4, 2, "1.1", "2.1", "3.2,4.1", ["-random", "3000"]),
+                    (8, 40, "", "", "", ["-free", "1000"]),
+                    (16, 25, "", "", "", ["-free", "500"])]
         nexec = nlines = 0
         samples = []
         distinct = set()
@@ -102,7 +104,7 @@ def check(tier):
                 cmd += ["-veto", veto]
             if prep:
                 cmd += ["-prep", prep]
-            rc, out = run(cmd, timeout=3000)
+            rc, out = run(cmd, timeout=3000 if tier == "quick" else 9000)
             if rc != 0:
                 raise Inconclusive("queue driver failed: " + out[-2000:])
             st = json.loads(out.strip().splitlines()[-1])
